@@ -2,15 +2,18 @@
 Line-protocol driver for C15.  One JSON object per line:
 
   {"op": <name>,
-   "args": [{"cont": "np"|"da"|"ds"|"pyint"|"pyfloat", "dtype": "f64"|"i64"|"i32"|"u8"|"u64"|"bool",
+   "args": [{"cont": "np"|"da"|"ds"|"pyint"|"pyfloat",
+             "dtype": "bool"|"i8"|"i16"|"i32"|"i64"|"u8"|"u16"|"u32"|"u64"|"f16"|"f32"|"f64"|"c64"|"c128",
              "shape": [..], "data": [flat row-major values], "labels": [null | [ints], ...]}, ...],
    "axis": null | int | [ints], "style": null | "axis" | "dim",
    "dimkind": "absent" | "int" | "npint" | "name", "index": int | [ints] | null, "sel": bool,
    "stack_dim_exists": bool, "concat_dim_missing": bool,
    "batches": [sizes] | null, "literal": bool}
 
-Values: integers as integers; float64 as the ORDINAL of the double (sign-magnitude reading of
-its 64 bits, see Model/F64.lean) or the string "nan".
+Values: integers as integers; float64 / float32 / float16 as the ORDINAL of the double that
+equals the value (sign-magnitude reading of its 64 bits, see Model/F64.lean) or the string "nan";
+of a complex number only the real part (complex values, float16 reductions and float16 / float32
+pow are opaque: the harness compares dtype, shape, labels and error cause of those, not the data).
 Answer: {"dtype":…, "shape":[…], "data":[…], "labels": null | [null | [ints], …]} or
 {"error": <token>} where the Python code raises (`errorOf` names the cause).  With "batches"
 the arguments are cut into consecutive batches of those sizes and `runBatched` is evaluated.
@@ -28,10 +31,14 @@ def opOfString : String → Option Op
   | "take" => some .take | _ => none
 
 def dtOfString : String → DType
-  | "f64" => .f64 | "i32" => .i32 | "u8" => .u8 | "u64" => .u64 | "bool" => .bool | _ => .i64
+  | "f64" => .f64 | "i32" => .i32 | "u8" => .u8 | "u64" => .u64 | "bool" => .bool
+  | "i8" => .i8 | "i16" => .i16 | "u16" => .u16 | "u32" => .u32 | "f32" => .f32 | "f16" => .f16
+  | "c64" => .c64 | "c128" => .c128 | _ => .i64
 
 def dtToString : DType → String
   | .f64 => "f64" | .i64 => "i64" | .i32 => "i32" | .u8 => "u8" | .u64 => "u64" | .bool => "bool"
+  | .i8 => "i8" | .i16 => "i16" | .u16 => "u16" | .u32 => "u32" | .f32 => "f32" | .f16 => "f16"
+  | .c64 => "c64" | .c128 => "c128"
 
 def contOfString : String → Cont
   | "da" => .da | "ds" => .ds | "pyint" => .pyInt | "pyfloat" => .pyFloat | _ => .np
@@ -73,7 +80,7 @@ def targOfJson (j : Json) : TArr :=
   let labels := match j.getObjVal? "labels" with
     | .ok (.arr a) => labelsOfJson (.arr a)
     | _ => []
-  if dt == .f64 then { cont := cont, dt := dt, flts := arrOfFlat shape (data.map fOfJson), labels := labels }
+  if dt.isFl then { cont := cont, dt := dt, flts := arrOfFlat shape (data.map fOfJson), labels := labels }
   else { cont := cont, dt := dt, ints := arrOfFlat shape (data.map asInt), labels := labels }
 
 def callOfJson (j : Json) (op : Op) : Call :=
@@ -93,7 +100,7 @@ def callOfJson (j : Json) (op : Op) : Call :=
 
 def resultToJson (r : Result) : Json :=
   let (shape, data) :=
-    if r.dt == .f64 then (r.flts.shape, (r.flts.elems.map fToJson).toArray)
+    if r.dt.isFl then (r.flts.shape, (r.flts.elems.map fToJson).toArray)
     else (r.ints.shape, (r.ints.elems.map (fun (v : Int) => toJson v)).toArray)
   Json.mkObj [("dtype", Json.str (dtToString r.dt)), ("shape", nats shape), ("data", Json.arr data),
               ("labels", match r.labels with | none => Json.null | some l => labelsToJson l)]
